@@ -38,6 +38,10 @@ def auto_discharge(site, fn, T, panic_abort):
                 g = _guarded_sub(fn, T, site.bb, a, b)
                 if g:
                     return g
+                if is_const(b):
+                    g = _guarded_sub_const(fn, T, site.bb, a, b[1])
+                    if g:
+                        return g
             if m.get("op") == "Add" and _is_unit_counter(fn, T, a, b):
                 return "increment by 1 of a 64-bit local counter that starts at 0 (2^64 increments are infeasible)"
             if is_const(a) and is_const(b):
@@ -55,10 +59,19 @@ def auto_discharge(site, fn, T, panic_abort):
                 if g:
                     return g
     if site.kind == "unwrap" and site.terms:
+        g = _guarded_unwrap(fn, T, site.bb, site.terms[0])
+        if g:
+            return g
         a = site.terms[0]
         if a[0] == "call" and a[1] in ("std::sync::Mutex::lock", "std::sync::RwLock::read", "std::sync::RwLock::write"):
             if panic_abort:
                 return "lock poisoning requires a prior panic; panic=abort in every profile"
+    if site.kind == "index" and t["k"] == "assert" and t["msg"].get("k") == "BoundsCheck":
+        pass
+    if site.kind == "index" and t["k"] == "call" and len(site.terms) > 1:
+        g = _guarded_index(fn, T, site.bb, site.terms[0], site.terms[1])
+        if g:
+            return g
     if site.kind == "index":
         ga = t["f"].get("ga", [])
         if ga and fn.ty(ga[0]).s.startswith("vise::wrappers::Family<"):
@@ -181,11 +194,195 @@ def is_p(t, names):
     return t[0] in ("upvar", "param") and t[-1] in names
 
 
+def _plain_cfg(fn):
+    from engine.mir import CFG
+    cfg = fn._cache.get("cfg_plain")
+    if cfg is None:
+        cfg = CFG(fn, True)
+        fn._cache["cfg_plain"] = cfg
+    return cfg
+
+
+FACTS = None     # set by inventory(): lets the purity test look at workspace callees
+
+
+def _pure_workspace_fn(qname, depth=0):
+    """a getter: a workspace function taking only shared references / values, with no write through a reference and
+    calling only pure functions"""
+    if FACTS is None or depth > 2:
+        return False
+    l = FACTS.by_qname.get(qname, [])
+    if len(l) != 1:
+        return False
+    g = l[0]
+    memo = g._cache.get("pure")
+    if memo is not None:
+        return memo
+    g._cache["pure"] = False
+    ok = g.kind in ("fn", "method") and not g.is_async and not any("&mut " in g.locals[i].s for i in range(1, g.argc + 1))
+    if ok:
+        from engine.terms import Terms
+        Tg = Terms(g)
+        for b in g.blocks:
+            for st in b["s"]:
+                if st["k"] == "assign" and st["p"].get("pr") and any(e == "*" for e in st["p"]["pr"]):
+                    ok = False
+        for c in Tg.calls() if ok else []:
+            q = c["rq"] or c["q"]
+            if q not in _PURE_CALLS and not _pure_workspace_fn(q, depth + 1):
+                ok = False
+                break
+    g._cache["pure"] = ok
+    return ok
+
+
+_PURE_CALLS = ("std::collections::VecDeque::front", "std::collections::VecDeque::back", "[T]::first", "[T]::last", "std::ops::Try::branch", "std::option::Option::as_ref", "std::option::Option::as_mut", "std::clone::Clone::clone", "std::ops::Deref::deref", "std::option::Option::as_deref",
+               "std::vec::Vec::len", "[T]::len", "std::collections::VecDeque::len", "std::collections::BTreeMap::len", "std::collections::HashMap::len")
+
+
+def _stable(T, *terms):
+    """The value at the guard is the value at the use: no operand is a local assigned on several paths, the operands
+    are places / pure projections (no lookup whose result could differ the second time), and no field they read is
+    assigned anywhere in the function."""
+    fn = T.fn
+    written = fn._cache.get("written_fields")
+    if written is None:
+        written = set()
+        for b in fn.blocks:
+            for st in b["s"]:
+                if st["k"] == "assign":
+                    for e in st["p"].get("pr", []):
+                        if isinstance(e, dict) and "n" in e:
+                            written.add(e["n"])
+                    r = st["r"]
+                    if r["k"] in ("ref", "rawptr") and (r.get("bk") == "mut" or r.get("mut")):
+                        for e in r["p"].get("pr", []):
+                            if isinstance(e, dict) and "n" in e:
+                                written.add(e["n"])
+        fn._cache["written_fields"] = written
+    for t in terms:
+        if t is None:
+            continue
+        for x in subterms(t):
+            if x[0] == "var" and len(T.defs.get(x[1], ())) >= 2:
+                return False
+            if x[0] in ("icall", "await"):
+                return False
+            if x[0] == "call" and x[1] not in _PURE_CALLS and not _pure_workspace_fn(x[1]):
+                return False
+            if x[0] == "field" and x[2] in written:
+                return False
+    return True
+
+
+def _dominating_truth(fn, T, bb, pred):
+    """pred(scrutinee term) -> True/False/None: the truth value of the scrutinee that establishes the guard.
+    Returns True when block bb is dominated by the edge of some switch taken exactly under that truth value."""
+    cfg = _plain_cfg(fn)
+    for sb in range(len(fn.blocks)):
+        si = T.switch_info(sb)
+        if si is None:
+            continue
+        scrut, edges = si
+        neg = False
+        while scrut[0] == "un" and scrut[1] == "Not":
+            neg = not neg
+            scrut = scrut[2]
+        want = pred(scrut)
+        if want is None:
+            continue
+        if neg:
+            want = not want
+        for tgt, labs in edges.items():
+            if labs == [want] and len(cfg.pred[tgt]) == 1 and cfg.dominates(tgt, bb):
+                return True
+    return False
+
+
+def _cmp_parts(scrut):
+    CM = {"std::cmp::PartialOrd::lt": "Lt", "std::cmp::PartialOrd::le": "Le", "std::cmp::PartialOrd::gt": "Gt", "std::cmp::PartialOrd::ge": "Ge",
+          "std::cmp::PartialEq::eq": "Eq", "std::cmp::PartialEq::ne": "Ne"}
+    if scrut[0] == "bin" and scrut[1] in ("Lt", "Le", "Gt", "Ge", "Eq", "Ne"):
+        return scrut[1], scrut[2], scrut[3]
+    if scrut[0] == "call" and scrut[1] in CM and len(scrut[2]) == 2:
+        return CM[scrut[1]], scrut[2][0], scrut[2][1]
+    return None
+
+
+def _guarded_index(fn, T, bb, recv, idx):
+    """v[i] dominated by i < v.len() (or v.len() > i)"""
+    if recv is None or idx is None or not _stable(T, recv, idx):
+        return None
+
+    def is_len(t):
+        return t[0] == "call" and t[1].rsplit("::", 1)[-1] == "len" and len(t[2]) == 1 and t[2][0] == recv
+
+    def pred(s):
+        p = _cmp_parts(s)
+        if p is None:
+            return None
+        op, x, y = p
+        if x == idx and is_len(y):
+            return {"Lt": True, "Ge": False}.get(op)
+        if is_len(x) and y == idx:
+            return {"Gt": True, "Le": False}.get(op)
+        return None
+    return "index guarded by a dominating bounds comparison (i < len)" if _dominating_truth(fn, T, bb, pred) else None
+
+
+def _guarded_unwrap(fn, T, bb, opt):
+    """x.unwrap() dominated by x.is_some() / !x.is_none() (Option) or x.is_ok() (Result) on the same, unchanged x"""
+    if opt is None or not _stable(T, opt):
+        return None
+
+    def pred(s):
+        if s[0] == "call" and len(s[2]) == 1 and s[2][0] == opt:
+            if s[1] in ("std::option::Option::is_some", "std::result::Result::is_ok"):
+                return True
+            if s[1] in ("std::option::Option::is_none", "std::result::Result::is_err"):
+                return False
+        return None
+    return "unwrap guarded by a dominating is_some()/is_ok() test of the same value" if _dominating_truth(fn, T, bb, pred) else None
+
+
+def _guarded_sub_const(fn, T, bb, a, k):
+    """a - k (k a small positive constant) dominated by a > k-1 / a >= k / a != 0 (k == 1) / !x.is_empty() for a = x.len()"""
+    if a is None or not _stable(T, a) or not isinstance(k, int) or k < 1:
+        return None
+
+    def pred(s):
+        p = _cmp_parts(s)
+        if p is not None:
+            op, x, y = p
+            if x == a and y[0] == "const" and isinstance(y[1], int):
+                c = y[1]
+                if op == "Gt" and c >= k - 1:
+                    return True
+                if op == "Ge" and c >= k:
+                    return True
+                if op == "Lt" and c >= k:
+                    return False
+                if op == "Le" and c >= k - 1:
+                    return False
+                if k == 1 and c == 0:
+                    return {"Ne": True, "Eq": False}.get(op)
+            if y == a and x[0] == "const" and isinstance(x[1], int):
+                c = x[1]
+                if op == "Lt" and c >= k - 1:
+                    return True
+                if op == "Le" and c >= k:
+                    return True
+        if k == 1 and s[0] == "call" and s[1].rsplit("::", 1)[-1] == "is_empty" and len(s[2]) == 1 and a[0] == "call" and a[1].rsplit("::", 1)[-1] == "len" and a[2] and a[2][0] == s[2][0]:
+            return False
+        return None
+    return "subtraction of a constant guarded by a dominating lower-bound test" if _dominating_truth(fn, T, bb, pred) else None
+
+
 def _guarded_sub(fn, T, bb, a, b):
     """`a - b` is dominated by the branch on which a >= b was established (same operand terms, or the newtype wrappers
     whose `.0` fields are subtracted), and neither operand can change in between."""
     from engine.mir import CFG
-    if any(x[0] == "var" and len(T.defs.get(x[1], ())) >= 2 for t in (a, b) for x in subterms(t)):
+    if not _stable(T, a, b):
         return None
 
     def forms(t):
@@ -291,6 +488,8 @@ def load_table(name):
 
 def inventory(ctx, roots, skip, extern_panicking):
     """(closure parent map, [Site]) for a root set."""
+    global FACTS
+    FACTS = ctx.F
     cl = ctx.cg.closure(roots, skip)
     sites = []
     for f in cl:
